@@ -6,6 +6,9 @@ set_tally_pool_means):
   c03.identity      mean over all cards under audit of the REAL overstatement_assorter(mvr_i, cvr_i) minus 1/2 equals
                     (2 mean(A) - 1) / (2 (2u - v)), with v the REAL margin and A_i computed by the oracle from the manual
                     record (phantom -> 0; style and contest missing -> 0; else the reference assorter).
+  c03.population    under style the cards the library audits for a contest (those whose CVR lists it after the library's
+                    own pool expansion) are the reference population: own listing, or pooled in a batch where some card
+                    lists it - for every pool label, also falsy ones (0, "").
   (diagnosis)       the CVR-side scores used by the library (overstatement + A_i) must sum to n (v+1)/2; this isolates
                     which side broke when the identity fails.
 """
@@ -23,7 +26,7 @@ RULE = ("simulated elections (3-60 cards, 1-4 contests: plurality incl. multi-wi
 REQUIRED = ["identities_checked", "assorter:plurality", "assorter:supermajority", "assorter:irv", "audit:CARD_COMPARISON",
             "audit:ONEAUDIT", "elections_with_phantoms", "elections_with_pooled_cards", "elections_with_pooled_phantoms",
             "elections_with_unfindable_cards", "elections_with_missing_contest_mvr", "style_on", "style_off",
-            "identities_rechecked_after_cvrs_revised_in_place"]
+            "identities_rechecked_after_cvrs_revised_in_place", "population_checked"]
 ASSUMPTIONS = ["pool labelling coherent (a batch is pooled or not); add_pool_contests applied under style (documented "
                "precondition of ONEAudit)", "A_i is computed by reference assorters written from the definitions "
                "(cross-checked against the real assorters by C02 and C14)"]
@@ -95,6 +98,15 @@ def check_identities(es, sim, rec):
         if sc["audit_type"] not in ("CARD_COMPARISON", "ONEAUDIT"):
             continue
         idx = sim.audited_indices(cid)
+        want_idx = sim.ref_population(cid)
+        rec.count("population_checked")
+        if idx != want_idx:
+            left_out = [sim.cvr_list[i] for i in want_idx if i not in idx]
+            rec.violation("c03.population", f"{sc['audit_type']}:cards_under_audit_differ_from_reference",
+                          {"contest": cid, "library_population": len(idx), "reference_population": len(want_idx),
+                           "left_out": [[c.id, repr(c.tally_pool), c.pool, c.phantom] for c in left_out[:5]],
+                           "extra": [sim.cvr_list[i].id for i in idx if i not in want_idx][:5]})
+            return False
         if not idx:
             continue
         if any(sim.mvr_votes(i, cid)[0] == "missing" for i in idx):
